@@ -468,3 +468,9 @@ CHECKS["C02"]["quick"]["tests"].append({"test": "TestC02Triple", "checks": 1500,
 CHECKS["C02"]["thorough"]["tests"].append({"test": "TestC02Triple", "checks": 6000, "subchecks": 6})
 CHECKS["C02"]["rule"] += (" Plus the triple-occurrence texts of C19 (d): one string three times with the first copy outside the "
                           "window of the third and the second inside (or other combinations).")
+
+CHECKS["C02"]["quick"]["tests"].append({"test": "TestC02Huge", "checks": 2000, "subchecks": KINDS7})
+CHECKS["C02"]["thorough"]["tests"].append({"test": "TestC02Huge", "checks": 8000, "subchecks": KINDS7})
+CHECKS["C02"]["rule"] += (" Plus 'no window limit' configurations: WindowSize at and a little below the largest accepted value "
+                          "(2^32-8; MaxInt32 for GSAP) with small buffers, short blocks, small hash tables, uniform texts and "
+                          "NoTrailingLiterals parses followed by another Parse.")
